@@ -470,7 +470,7 @@ func TestC07Withdraw(t *testing.T) {
 	defer vt.Watch("TestC07Withdraw", 120*time.Second)()
 	rec := vt.For("C07")
 	rec.Rule("payment fixture (real PaymentService over memory/badger behind the deposit overlay; fee in {none, constant 25, 1%}; minimum in {none,0,500,5e15}; settle handler present or absent; wallets w0 (two nodes) and w1): rules accrue (wallet or via linked node), deposit change, withdraw, withdraw with failing settlement, forged withdraw, race = 2-3 concurrent withdrawals of one wallet (+ a racing accrual, + a withdrawal of the other wallet, settlement failing at a drawn attempt) under the harness-owned scheduler with yield points at every store call and the settle call, and the same free-running; oracle: model decides executes <=> settle configured and deposit+credit >= min and settle ok, settle(amount == fee(deposit+credit), new balance 0), balance 0 afterwards, failure leaves balances unchanged, other wallet untouched; for races conservation: sum of settled pre-fee totals + what is still owed == owed before + accrued, and #successes == #successful settlements; non-trivial = a race, a failed settlement, or >=2 withdrawals of one wallet with accrual in between; distinct by config + op sequence + classes")
-	rapid.Check(t, func(rt *rapid.T) {
+	check(t, func(rt *rapid.T) {
 		rapid.SyncTest(rt, func(rt *rapid.T) { c07Case(rt, rec) })
 	})
 }
